@@ -42,6 +42,7 @@ func (fr *Frame) loopEnv(li *loopInfo, st *State, override map[*ssa.Phi]Val) *Sp
 	env.locals = func(name string) (Val, bool) {
 		return fr.localByName(name, li.header, st, override)
 	}
+	env.loopEntry = li.entrySt
 	return env
 }
 
@@ -474,7 +475,18 @@ func (fr *Frame) exitLoop(li *loopInfo, b, s *ssa.BasicBlock, cur *State) {
 		if lbl == "" {
 			lbl = fmt.Sprintf("%d", i)
 		}
-		fr.obligeClause(st, "inv-exit", fmt.Sprintf("loop%d/%s", li.ordinal, lbl), env, cl.forPhase("keep"), nil)
+		func() {
+			// a clause that mentions a local not yet defined on this exit path does not apply to it
+			defer func() {
+				if r := recover(); r != nil {
+					if u, ok := r.(unsupported); ok && strings.Contains(u.msg, "unknown identifier") {
+						return
+					}
+					panic(r)
+				}
+			}()
+			fr.obligeClause(st, "inv-exit", fmt.Sprintf("loop%d/%s", li.ordinal, lbl), env, cl.forPhase("keep"), nil)
+		}()
 	}
 	// the facts hold on this edge; make them available to the successor
 	// (obligeClause already asserted them under the edge condition)
